@@ -2,3 +2,4 @@ import Driver.Codec
 import Driver.TextOps
 import Driver.ParseOps
 import Driver.GenOps
+import Driver.BuildOps
